@@ -10,7 +10,7 @@ RULE = ("trees enumerated by TLC over pools in which one name recurs under diffe
 def run(tier, rep):
     rc.render_pools(rep, "C14", tier, ["depth"], rc.C14_TAGS, opkinds=("add", "text"),
                     maxops=6 if tier == "quick" else 7, maxdepth=4, limit=600 if tier == "quick" else 15000)
-    rc.render_pools(rep, "C14", tier, ["plain", "case", "concat", "prefixed", "attrsame", "casefold", "nonasciicaps"], rc.C14_TAGS, opkinds=("add", "text"),
+    rc.render_pools(rep, "C14", tier, ["plain", "case", "concat", "prefixed", "attrsame", "casefold", "nonasciicaps", "shadow"], rc.C14_TAGS, opkinds=("add", "text"),
                     maxops=4 if tier == "quick" else 5, maxdepth=3, limit=500 if tier == "quick" else 15000)
     # dense reuse of three names at depth: the same name under same-named parents under different grandparents
     rc.random_trees(rep, "C14", tier, rc.C14_TAGS, pool=["a", "b", "c"], ops=25, remove=0, kinds=["add", "add", "add", "text"],
